@@ -379,4 +379,34 @@ theorem addNodes_edges_complete (cfg : Cfg) (roots nodes : List Node) (j : Nat) 
     have hd : d ≤ j - 1 := by have := h2 (by simpa using hnn); omega
     exact edges_step hE (hB n (hr.mono hd)) he
 
+/-! ### the table fall-back: rows and the cell of the root (round 6) -/
+
+theorem dedup_of_nodup {l : List Node} (h : l.Nodup) : dedup l = l := by
+  induction l with
+  | nil => simp [dedup]
+  | cons a r ih =>
+    rw [List.nodup_cons] at h
+    simp [dedup, h.1, ih h.2]
+
+/-- a hop in which every candidate is new and occurs once has as many nodes as edges -/
+theorem hop_lengths_eq {cfg : Cfg} {added nodes : List Node}
+    (hd : ((cands cfg.succ nodes).map Prod.fst).Nodup)
+    (hn : ∀ c ∈ (cands cfg.succ nodes).map Prod.fst, c ∉ added) :
+    (hopOf cfg added nodes).length = (hopEdgesOf cfg nodes).length := by
+  have hf : ((cands cfg.succ nodes).map Prod.fst).filter (fun c => !cfg.filterAdded || !added.contains c)
+      = (cands cfg.succ nodes).map Prod.fst := by
+    apply List.filter_eq_self.2
+    intro c hc
+    have := hn c hc
+    simp [this]
+  simp only [hopOf, hopEdgesOf, hf, dedup_of_nodup hd, List.length_map]
+
+/-- ... and never more nodes than edges -/
+theorem hop_length_le {cfg : Cfg} {added nodes : List Node} :
+    (hopOf cfg added nodes).length ≤ (hopEdgesOf cfg nodes).length := by
+  simp only [hopOf, hopEdgesOf, List.length_map]
+  refine Nat.le_trans (length_dedup_le _) ?_
+  refine Nat.le_trans (List.length_filter_le _ _) ?_
+  simp
+
 end Ford.Graph
